@@ -255,7 +255,9 @@ PROPS = {
         "monitors": ["answer"],
         "n_quick": 3000, "n_thorough": 30000, "thorough_seeds": 3,
         "rule": SQLITE_RULE,
-        "level_text": "Partial: atomicity and persistence are properties of SQLite transactions and files; in the model a failed batch and a reopen are the identity by definition "
+        "level_text": "Proved on the table model: inserting a batch again - after a success or as the retry after a failure - leaves every table exactly as one successful insertion does, for every "
+                      "database state and batch with injective ids (insertBatch_idempotent, retries_equal_single_success: every statement of the second run finds its event settled, by an invariant "
+                      "carried through the whole batch). Partial: atomicity and persistence are properties of SQLite transactions and files; in the model a failed batch and a reopen are the identity by definition "
                       "(failed_batch_is_identity, retry_after_failure) and the fault-injecting correspondence checks that the real database behaves so: after a batch that failed at any driver call "
                       "index every query is answered as before, a retried or repeated batch gives the answers of one successful insertion, and answers survive close/reopen (same hash seed), "
                       "including replacement and deletion across the restart.",
